@@ -402,6 +402,11 @@ func xlateUnit(root string, u *xUnit, ld *xLoader, records map[string]*types.Nam
 		x.lo, x.hi = body[0].Pos(), body[len(body)-1].End()
 	}
 	text := x.block(body, final, 2)
+	lines := strings.Split(text, "\n")
+	for i := range lines {
+		lines[i] = strings.TrimRight(lines[i], " ")
+	}
+	text = strings.Join(lines, "\n")
 	pos := x.fset.Position(fd.Pos())
 	rel, _ := filepath.Rel(root, pos.Filename)
 	what := "func " + u.Func
